@@ -2160,14 +2160,25 @@ Section Shape.
   Proof. intros H. constructor; [|constructor]. cbn. apply String.eqb_neq. exact H. Qed.
 
   (** leaving the combiner role: Emit "unlock"; m_Mutex.unlock() *)
+  Lemma safe_unlock_emit_b R t l (Q : option R -> sview -> Prop) k :
+    safe t k (forget l) Q -> safe t (Emit [EvCli "unlock" []] k) l Q.
+  Proof.
+    intros H. apply safe_emit_g with (l' := forget l); [apply nolost_name; discriminate|apply GhostOK_forget|]. exact H.
+  Qed.
+  Lemma safe_unlock_ret_b A (x : A) t r lf (Pq : A -> sview -> Prop) : St r true true true false lf ->
+    (forall l', St r false true true false l' -> Pq x l') ->
+    safe t (Act (@a_unlock C Rs P) (fun _ => @ret C Rs P A x)) lf (optQ Pq).
+  Proof.
+    intros Hst HQ. destruct Hst as [s1 s2 s3 s4 s5 s6 s7 s8 s9 s10 s11 s12].
+    apply safe_unlock_b; [exact s6|exact s7|exact s8|exact s10|exact s11|exact s12|].
+    intros v. unfold ret. cbn [Conc.safe optQ]. apply HQ.
+    split; [exact s1|exact s2|exact s3|exact s4|exact s5|reflexivity|exact s7|exact s8|exact s9|exact s10|exact s11|exact s12].
+  Qed.
   Lemma safe_unlock_seq_b A (x : A) t r l (Pq : A -> sview -> Prop) : Fin r l ->
     (forall l', St r false true true false l' -> Pq x l') ->
     safe t (Emit [EvCli "unlock" []] (Act (@a_unlock C Rs P) (fun _ => @ret C Rs P A x))) l (optQ Pq).
   Proof.
-    intros Hf HQ. apply safe_emit_g with (l' := forget l); [apply nolost_name; discriminate|apply GhostOK_forget|].
-    pose proof (Fin_forget Hf) as [s1 s2 s3 s4 s5 s6 s7 s8 s9 s10 s11 s12].
-    apply safe_unlock_b; auto. intros v. unfold ret. cbn [Conc.safe optQ]. apply HQ.
-    split; [exact s1|exact s2|exact s3|exact s4|exact s5|reflexivity|exact s7|exact s8|exact s9|exact s10|exact s11|exact s12].
+    intros Hf HQ. apply safe_unlock_emit_b. apply (@safe_unlock_ret_b A x t r (forget l) Pq (Fin_forget Hf) HQ).
   Qed.
 
   Lemma safe_as_combiner_b t r fuel mask npass batch d l : 1 <= r -> (batch = true \/ 1 <= npass) ->
